@@ -1,7 +1,7 @@
 (* Correspondence and monitor for C01, evaluated on cases written by harness/props/c01.py. *)
 From Coq Require Import NArith List Bool Arith.
 Import ListNotations.
-From HV Require Export lib.Harness model.Validity model.Builder spec.BuilderWFS model.Builder2 spec.Builder2WFS spec.Builder2LiveS.
+From HV Require Export lib.Harness model.Validity model.Builder spec.BuilderWFS model.Builder2 spec.Builder2WFS spec.Builder2LiveS model.Builder3.
 Local Open Scope N_scope.
 
 (* ------------------------------------------------------------------ equality of literals *)
@@ -61,13 +61,21 @@ Inductive case :=
 | CSkip
 | CPrem (tys : list tyinfo) (p : prog)
 | CProg2 (p : prog2) (h : vhugr) (same : bool) (fake : bool)
-| CPrem2 (tys : list tyinfo) (p : prog2).
+| CPrem2 (tys : list tyinfo) (p : prog2)
+(* fourth pass: a program inside the third builder model of model/Builder3.v (functions, modules, control-flow graphs),
+   with the table of interned polymorphic signatures *)
+| CProg3 (sigs : list sinfo) (p : prog3) (subs : list prog3) (h : vhugr) (same : bool) (fake : bool).
 
 (* the model run on the program gives the implementation's document *)
 Definition corr (c : case) : bool :=
   match c with
   | CProg p h _ _ => match run (v_tys h) p with Ok g => graph_eqb g (v_main h) | Err _ => false end
   | CProg2 p h _ _ => match run2 (v_tys h) p with Ok g => graph_eqb g (v_main h) | Err _ => false end
+  | CProg3 sigs p subs h _ _ =>
+      match run3s (v_tys h) sigs p subs with
+      | Ok gs => graph_eqb (fst gs) (v_main h) && list_eqb graph_eqb (snd gs) (v_subs h)
+      | Err _ => false
+      end
   | _ => true
   end.
 
@@ -80,6 +88,7 @@ Definition mon (c : case) : bool :=
   | CPrem _ _ => true
   | CProg2 _ h same _ => same && valid h
   | CPrem2 _ _ => true
+  | CProg3 _ _ _ h same _ => same && valid h
   end.
 
 (* the premises of C01_builder_valid (spec/BuilderWFS.v: wf_prog; and the type table) on an in-model program *)
@@ -102,5 +111,6 @@ Definition agree (c : case) : bool :=
   | CDoc h _ fake => Bool.eqb (valid h) fake
   | CProg _ h _ fake => Bool.eqb (valid h) fake
   | CProg2 _ h _ fake => Bool.eqb (valid h) fake
+  | CProg3 _ _ _ h _ fake => Bool.eqb (valid h) fake
   | _ => true
   end.
